@@ -6,9 +6,19 @@
  * handle_request), the replies are captured at the wrapped coap_socket_send, the request handlers log every
  * invocation.  The observation is compared with ref/refsrv.c (decision table of the statement).
  *
+ * Stages: the sanitizer build (c10) enumerates the <=2-option request product and the edge product (all four message
+ * types, invalid code classes, Empty, 9-byte token, Confirmable-to-multicast) in both tiers; the -O2 build (c10f)
+ * enumerates the <=3-option request product in the thorough tier only.
+ *
+ * A failing case that carries No-Response or was sent to the multicast group is re-run without No-Response / unicast
+ * ("base case"); when the base case deviates too and the failing case is exactly that deviation seen through the
+ * reference's own suppression stage, it is reported under the base case's signature (one defect, one signature).
+ *
  * Signatures (stable classes):
- *   reply:want-<W>-got-<G>:<rule>:<CON|NON|ACK|RST>[:mcast]   W/G = none | RST | EACK | c.dd | sep/c.dd, prefixed
- *                                                             "handler/" when an application handler ran / must run
+ *   reply:want-<W>-got-<G>:<rule>[:<CON|NON|ACK|RST>[:mcast]]  W/G = none | RST | EACK | c.dd | sep/c.dd, prefixed
+ *                                                             "handler/" when an application handler must run / ran;
+ *                                                             G = "handler" when one ran that must not; the type
+ *                                                             suffix is dropped when both sides are response codes
  *   suppression:no-response:<value>:<class>xx:want-<W>-got-<G>
  *   suppression:mcast:<rule>:want-<W>-got-<G>     suppression:mcast:rst-for-NON:<rule>
  *   reply-count:<n>:<rule>   token-not-echoed:<rule>   ack-for-NON   ack-for-<ACK|RST>   non-for-CON
